@@ -79,7 +79,9 @@ pub fn check_bulk_quant_t<T: QEl>(c: &QCase) -> CheckResult {
         .class_if(unsorted, "requests:unsorted")
         .class_if(repeat, "requests:repeated")
         .class_if(shared, "requests:shared-index")
-        .class_if(qs.is_empty(), "requests:empty"))
+        .class_if(qs.is_empty(), "requests:empty")
+        .class_if(qs.len() >= 64, "requests>=64")
+        .class_if(n >= 1024, "lane>=1024"))
 }
 
 pub fn check_bulk_quant(c: &QCase) -> CheckResult {
@@ -157,7 +159,11 @@ pub fn check_bulk_select(c: &BulkCase) -> CheckResult {
             c.indexes
         );
     }
-    Ok(Info::new(c.indexes.len() >= 2 && want.len() < c.indexes.len() && n >= 3).class("bulk-selection"))
+    Ok(Info::new(c.indexes.len() >= 2 && want.len() < c.indexes.len() && n >= 3)
+        .class("bulk-selection")
+        .class_if(n >= 1024, "array>=1024")
+        .class_if(n >= 2 && want.first() == Some(&0) && want.last() == Some(&(n - 1)), "both-extremes-requested")
+        .class_if(want.len() >= 32 && want[want.len() - 1] - want[0] == want.len() - 1, "consecutive-block(>=32)"))
 }
 
 fn bulk_select_strategy(max_len: usize) -> impl Strategy<Value = BulkCase> {
@@ -477,6 +483,8 @@ pub fn check_axis_weighted(c: &AxisWCase) -> CheckResult {
         .class_if(bit_equal, "axis-vs-lane:bit-identical")
         .class_if(!bit_equal, "axis-vs-lane:within-budget-only")
         .class_if(c.w_step > 1 || c.w_rev, "weights:strided-view")
+        .class_if(n > 1024, "lane>1024")
+        .class_if(n > 4096, "lane>4096")
         .class_if(!c.non_finite.inf_at.is_empty() || !c.non_finite.nan_at.is_empty(), "data:non-finite"))
 }
 
@@ -508,6 +516,45 @@ fn axisw_strategy() -> impl Strategy<Value = AxisWCase> {
         .prop_map(|((ty, shape, axis, layout), data, weights, w_step, w_rev, scale_pow, ddof4, non_finite)| AxisWCase { ty, shape, axis, layout, w_step, w_rev, data, weights, scale_pow, ddof4, non_finite })
 }
 
+/// Long lanes (beyond 1024 / 4096 elements) for the per-axis weighted routines.
+fn axisw_long_strategy(max_lane: usize) -> impl Strategy<Value = AxisWCase> {
+    (0u8..3, long_len(600, max_lane), 1usize..=3, 0usize..3, any::<u64>(), 0u8..4)
+        .prop_flat_map(|(ty, lane, others, place, seed, wclass)| {
+            let (shape, axis) = match place {
+                0 => (vec![lane], 0),
+                1 => (vec![lane, others], 0),
+                _ => (vec![others, lane], 1),
+            };
+            let nd = shape.len();
+            let total: usize = shape.iter().product();
+            let mut next = splitmix(seed);
+            let data: Vec<i32> = (0..total).map(|_| (next() % 4000) as i32 - 2000).collect();
+            let weights: Vec<u16> = (0..lane)
+                .map(|_| match wclass {
+                    0 => (next() % 40) as u16,
+                    1 => if next() % 3 == 0 { 0 } else { (next() % 1000) as u16 },
+                    2 => 4,
+                    _ => (next() % 7) as u16 + 1,
+                })
+                .collect();
+            (Just((ty, shape, axis, data, weights)), layout_strategy(nd), 1usize..3, any::<bool>(), 0u8..11, 0u8..5)
+        })
+        .prop_map(|((ty, shape, axis, data, weights), layout, w_step, w_rev, scale_pow, ddof4)| AxisWCase { ty, shape, axis, layout, w_step, w_rev, data, weights, scale_pow, ddof4, non_finite: NonFinite::default() })
+}
+
+/// Bulk quantile calls on long lanes with long request lists.
+fn bulk_qcase_long_strategy(max_lane: usize) -> impl Strategy<Value = QCase> {
+    qcase_long_strategy(max_lane, true).prop_map(|mut c| {
+        if !matches!(c.api, Api::AxisBulk | Api::OneDBulk) {
+            c.api = if c.shape.len() == 1 && c.data.len() % 2 == 1 { Api::OneDBulk } else { Api::AxisBulk };
+            // a single-quantile case carries one request: add the extremes and a repeat
+            let q = c.qs[0];
+            c.qs.extend([QSpec::Zero, QSpec::One, q]);
+        }
+        c
+    })
+}
+
 // ---------------------------------------------------------------------------------------
 
 pub fn run_c18(ctx: &Ctx) {
@@ -516,6 +563,10 @@ pub fn run_c18(ctx: &Ctx) {
     ctx.run_proptest("bulk-select", t.pick(20_000, 500_000), bulk_select_strategy(t.pick(60, 300)), &check_bulk_select);
     ctx.run_proptest("bulk-moments", t.pick(20_000, 400_000), moments_strategy(), &check_moments);
     ctx.run_proptest("bulk-axis-weighted", t.pick(20_000, 400_000), axisw_strategy(), &check_axis_weighted);
+    // long lanes / long request lists
+    ctx.run_proptest("bulk-quant-long", t.pick(500, 16_000), bulk_qcase_long_strategy(t.pick(2_500, 5_000)), &check_bulk_quant);
+    ctx.run_proptest("bulk-select-long", t.pick(800, 24_000), crate::props::sel::bulk_long_strategy(t.pick(3_000, 6_000)), &check_bulk_select);
+    ctx.run_proptest("bulk-axis-weighted-long", t.pick(800, 24_000), axisw_long_strategy(t.pick(5_000, 12_000)), &check_axis_weighted);
 }
 
 pub fn replayers() -> Vec<(&'static str, ReplayFn)> {
@@ -524,6 +575,9 @@ pub fn replayers() -> Vec<(&'static str, ReplayFn)> {
         ("bulk-select", |v| replay_with::<BulkCase>(v, &check_bulk_select)),
         ("bulk-moments", |v| replay_with::<MomentsCase>(v, &check_moments)),
         ("bulk-axis-weighted", |v| replay_with::<AxisWCase>(v, &check_axis_weighted)),
+        ("bulk-quant-long", |v| replay_with::<QCase>(v, &check_bulk_quant)),
+        ("bulk-select-long", |v| replay_with::<BulkCase>(v, &check_bulk_select)),
+        ("bulk-axis-weighted-long", |v| replay_with::<AxisWCase>(v, &check_axis_weighted)),
     ]
 }
 
